@@ -4,9 +4,10 @@ Every read of the real readers (Newick, NEXUS, PHYLIP, FASTA; routes Tree.get / 
 <Type>CharacterMatrix.get) runs under the JUMP step budget (LIMIT_A + LIMIT_B * len(text), calibrated at >= 100x the
 maximum any route needs on the valid corpus) inside the per-case wall-clock watchdog.  The outcome of one read is judged by
 
-  terminates       a budget overflow is the verdict "does not terminate"; key = format + the innermost *reader*
-                   function on the stack when the budget tripped (the function whose loop spins).  The wall-clock
-                   watchdog alone is inconclusive.
+  terminates       a budget overflow is the verdict "does not terminate"; key = format + the function whose loop
+                   spins (found by re-running the read under a jump counter: the shallowest frame that still jumps
+                   in the steady state; its callers are blocked in a call).  The wall-clock watchdog alone is
+                   inconclusive.
   exception        only an exception of the DataParseError family, or the documented ValueError of the get() factories
                    for a source without data ("No trees in data source", "No trees available at requested location ...",
                    "No character data in data source") may escape.  Anything else is a violation keyed by
@@ -58,11 +59,13 @@ REACH = ["tokenizer:Tokenizer.next_token", "tokenizer:Tokenizer.require_next_tok
          "nexusreader:NexusReader._parse_link_statement", "nexusreader:NexusReader._parse_charset_statement",
          "newickreader:NewickReader._parse_tree_statement", "newickreader:NewickReader._parse_tree_node_description",
          "phylipreader:PhylipReader._read", "fastareader:FastaReader._read"]
-MIN_EVENTS = {"read": (6000, 300000), "budget-armed": (6000, 300000), "outcome:parse-error": (1500, 80000),
-              "outcome:returned": (1500, 60000), "outcome:documented-valueerror": (100, 3000),
-              "tree-walked": (500, 30000), "dims-judged:nexus": (200, 10000), "dims-judged:phylip": (100, 4000),
-              "hook:NexusReader._read:call": (3000, 150000), "hook:PhylipReader._read:call": (500, 20000),
-              "valid-document-returned": (40, 200), "depth-stress-read": (6, 6)}
+MIN_EVENTS = {"read": (8000, 300000), "budget-armed": (8000, 300000), "outcome:parse-error": (2000, 80000),
+              "outcome:returned": (2000, 60000), "outcome:documented-valueerror": (300, 10000),
+              "tree-walked": (800, 20000), "dims-judged:nexus": (500, 10000), "dims-judged:nexus-rows": (200, 5000),
+              "dims-judged:phylip": (300, 3000), "hook:NexusReader._read:call": (4000, 150000),
+              "hook:PhylipReader._read:call": (800, 20000), "hook:NexusReader._parse_matrix_statement:return": (500, 10000),
+              "prefix-read": (3000, 20000), "edit-read": (3000, 200000), "random-read": (1000, 60000),
+              "valid-document-returned": (20, 60), "depth-stress-read": (7, 7)}
 ASSUMPTIONS = ["allowed exceptions: subclasses of dendropy.utility.error.DataParseError (Tokenizer.*, NexusReader.*, NewickReader.*, "
                "PhylipReader.* error classes) and the three 'no data' ValueErrors of the get() factories",
                "step budget %d + %d * len(text) backward jumps inside library code",
@@ -115,6 +118,7 @@ DIRECTED = [
     ("nexus", NX + "BEGIN DATA; DIMENSIONS NTAX=1 NCHAR=2; FORMAT DATATYPE=STANDARD SYMBOLS=\"1?\"; MATRIX a 11; END;\n", None, "standard"),
     # --- SETS block: CHARSET with a non-numeric position; LINK CHARACTERS to an untitled matrix
     ("nexus", NX + "BEGIN DATA; DIMENSIONS NTAX=1 NCHAR=2; FORMAT DATATYPE=DNA; MATRIX a AC; END;\nBEGIN SETS; CHARSET x = foo; END;\n", None, "dna"),
+    ("nexus", NX + "BEGIN DATA; DIMENSIONS NTAX=1 NCHAR=2; FORMAT DATATYPE=DNA; MATRIX a AC; END;\nBEGIN SETS; CHARSET x = 1-2\\0; END;\n", None, "dna"),
     ("nexus", NX + "BEGIN DATA; DIMENSIONS NTAX=1 NCHAR=2; FORMAT DATATYPE=DNA; MATRIX a AC; END;\n"
               "BEGIN SETS; LINK CHARACTERS = d; CHARSET x = 1; END;\n", None, "dna"),
     # --- PHYLIP rows against the header
@@ -122,8 +126,21 @@ DIRECTED = [
     ("phylip", "2 2\na ACG\nb AC\n", {}, "dna"),
     ("phylip", "2 2\na ACG\nb AC\n", {"interleaved": True}, "dna"),
     ("phylip", "2 4\na ACGT\na ACGT\nb ACGT\n", {}, "dna"),
+    # --- jplace edge numbers (reader option)
+    ("newick", "(a{x},b);", {"is_parse_jplace_tokens": True}, None),
+    # --- tree weight comment with a zero denominator (reader option)
+    ("newick", "[&W 1/0] (a,b);", {"store_tree_weights": True}, None),
+    ("nexus", NX + "BEGIN TREES; TREE t = [&W 1/0] (a,b); END;\n", {"store_tree_weights": True}, None),
     ("phylip", "2 2\na         AC\nb         G\nTT\n", {"strict": True, "interleaved": True}, "dna"),
 ]
+
+# documented reader options applied to a quarter of the edited / random inputs (the valid corpus parses under each of them)
+KWVAR = {"newick": [{"suppress_internal_node_taxa": False}, {"terminating_semicolon_required": False}, {"preserve_underscores": True},
+                    {"suppress_leaf_node_taxa": True}, {"rooting": "force-rooted"}, {"store_tree_weights": True},
+                    {"extract_comment_metadata": False}, {"suppress_edge_lengths": True}, {"is_parse_jplace_tokens": True}],
+         "nexus": [{"suppress_internal_node_taxa": False}, {"terminating_semicolon_required": False}, {"store_ignored_blocks": True},
+                   {"preserve_underscores": True}, {"store_tree_weights": True}, {"unconstrained_taxa_accumulation_mode": True},
+                   {"extract_comment_metadata": False}, {"rooting": "default-rooted"}]}
 
 DEPTH = [
     ("newick", "open-parens", "(" * 50),
@@ -159,10 +176,10 @@ def cases(tier, seed):
         n = len(d["text"])
         for lo in range(0, n, chunk):
             yield {"kind": "prefix", "doc": k, "lo": lo, "hi": min(n, lo + chunk), "tier": tier, "seed": seed}
-    nedit = 60 if tier == "quick" else 3000
+    nedit = 100 if tier == "quick" else 6000
     for i in range(nedit):
         yield {"kind": "edit", "i": i, "n": 50, "tier": tier, "seed": seed}
-    nrand = 24 if tier == "quick" else 1200
+    nrand = 40 if tier == "quick" else 2000
     for i in range(nrand):
         yield {"kind": "random", "i": i, "n": 50, "tier": tier, "seed": seed}
 
@@ -233,6 +250,7 @@ class Monitor(object):
 
 
 _MON = [None]
+_LOCATOR = U.SpinLocator(core.REPO_SRC)
 
 
 def shard_setup(ctx):
@@ -358,6 +376,7 @@ def read_and_judge(ctx, fmt, route, text, kw, dtype, klass="generated", expect_v
     limit = LIMIT_A + LIMIT_B * len(text)
     ctx.ev("read")
     ctx.ev("read:%s:%s" % (fmt, route))
+    ctx.ev("class:%s" % klass)
     result = None
     outcome = None
     try:
@@ -368,7 +387,12 @@ def read_and_judge(ctx, fmt, route, text, kw, dtype, klass="generated", expect_v
     except core.CaseTimeout:
         raise
     except StepBudgetExceeded as e:
-        site = spin_site(e)
+        # the verdict is the budget's; a second, shorter run of the same read only names the spinning function
+        mon.reset()
+        site = _LOCATOR.locate(lambda: do_read(fmt, route, text, kw, dtype), LIMIT_A // 4 + (LIMIT_B // 4) * len(text))
+        if site is None:
+            ctx.note("spin-locator-fell-back-to-innermost-reader-frame")
+            site = spin_site(e)
         ctx.ev("outcome:budget-exceeded")
         ctx.violation("%s|does-not-terminate|%s" % (fmt, site),
                       "read exceeded the step budget (%d backward jumps for %d chars); spinning in %s (tripped at %s)" % (
@@ -524,11 +548,15 @@ def run_case(case, ctx):
                 if rng.random() < 0.4:
                     text, w2 = U.edit(text, d["fmt"], rng)
                     what += " + " + w2
+                if d["fmt"] in KWVAR and rng.random() < 0.25:
+                    d = dict(d, kw=rng.choice(KWVAR[d["fmt"]]))
             else:
                 fmt = rng.choice(["nexus", "nexus", "nexus", "newick", "newick", "phylip", "fasta"])
                 kw = {}
                 if fmt == "phylip":
                     kw = {"strict": rng.random() < 0.5, "interleaved": rng.random() < 0.5}
+                elif fmt in KWVAR and rng.random() < 0.25:
+                    kw = rng.choice(KWVAR[fmt])
                 d = {"fmt": fmt, "kw": kw, "dtype": rng.choice(["dna", "dna", "standard"]) if fmt == "nexus" else "dna"}
                 text, what = U.random_tokens(fmt, rng), "random tokens"
             if len(text) > 2048:
